@@ -743,10 +743,10 @@ theorem default_applies (rules : List Rule) (ob : Obj)
   simp [decide, hn, hp]
 
 example : decide [⟨.hidden, ['m', '.', '*']⟩, ⟨.pub, ['m', '.', 'a']⟩, ⟨.priv, ['*', '*']⟩]
-    ⟨['m', '.', 'a'], ['a'], false, false⟩ = .ok .pub := by decide
+    ⟨['m', '.', 'a'], ['a'], false, false, true⟩ = .ok .pub := by decide
 example : decide [⟨.hidden, ['m', '.', '*']⟩, ⟨.priv, ['*', '*']⟩]
-    ⟨['m', '.', 'a'], ['a'], false, false⟩ = .ok .priv := by decide
-example : decide [⟨.hidden, ['x', '.', '*']⟩] ⟨['m', '.', '_', 'a'], ['_', 'a'], false, false⟩ = .ok .priv := by
+    ⟨['m', '.', 'a'], ['a'], false, false, true⟩ = .ok .priv := by decide
+example : decide [⟨.hidden, ['x', '.', '*']⟩] ⟨['m', '.', '_', 'a'], ['_', 'a'], false, false, true⟩ = .ok .priv := by
   decide
 
 /-! ### the whole decision against the property's statement -/
@@ -812,13 +812,13 @@ theorem precedence_partial (rules : List Rule) (ob : Obj)
     | none => simp
 
 theorem precedence_counterexample :
-    (privacyClass [⟨.hidden, ['[', 'b', '-', 'a', ']']⟩] [] ⟨['a'], ['a'], false, false⟩).1
+    (privacyClass [⟨.hidden, ['[', 'b', '-', 'a', ']']⟩] [] ⟨['a'], ['a'], false, false, true⟩).1
       = .err .reError := by decide
 
 theorem main_module_counterexample :
-    (privacyClass [⟨.hidden, ['p', '.'] ++ mainName⟩] [] ⟨['p', '.'] ++ mainName, mainName, true, false⟩).1
+    (privacyClass [⟨.hidden, ['p', '.'] ++ mainName⟩] [] ⟨['p', '.'] ++ mainName, mainName, true, false, true⟩).1
         = .ok .priv ∧
-      specLevel [⟨.hidden, ['p', '.'] ++ mainName⟩] ⟨['p', '.'] ++ mainName, mainName, true, false⟩
+      specLevel [⟨.hidden, ['p', '.'] ++ mainName⟩] ⟨['p', '.'] ++ mainName, mainName, true, false, true⟩
         = .hidden := by decide
 
 
@@ -1002,22 +1002,25 @@ theorem cache_transparent (rules : List Rule) (qs : List Obj)
 /-- two objects with one qualified name (a child `_x.s` of `m`, a child `s` of `m._x`): the second
 query is answered from the cache with the first one's class -/
 theorem cache_counterexample :
-    (run [] [] [⟨['m', '.', '_', 'x', '.', 's'], ['s'], false, false⟩,
-               ⟨['m', '.', '_', 'x', '.', 's'], ['_', 'x', '.', 's'], false, false⟩]).1
+    (run [] [] [⟨['m', '.', '_', 'x', '.', 's'], ['s'], false, false, true⟩,
+               ⟨['m', '.', '_', 'x', '.', 's'], ['_', 'x', '.', 's'], false, false, true⟩]).1
       = [.ok .pub, .ok .pub] ∧
-    (privacyClass [] [] ⟨['m', '.', '_', 'x', '.', 's'], ['_', 'x', '.', 's'], false, false⟩).1
+    (privacyClass [] [] ⟨['m', '.', '_', 'x', '.', 's'], ['_', 'x', '.', 's'], false, false, true⟩).1
       = .ok .priv := by decide
 
 example : (run [⟨.hidden, ['m', '.', '*']⟩] []
-    [⟨['m', '.', 'a'], ['a'], false, false⟩, ⟨['m'], ['m'], true, false⟩,
-     ⟨['m', '.', 'a'], ['a'], false, false⟩]).1 = [.ok .hidden, .ok .pub, .ok .hidden] := by decide
+    [⟨['m', '.', 'a'], ['a'], false, false, true⟩, ⟨['m'], ['m'], true, false, true⟩,
+     ⟨['m', '.', 'a'], ['a'], false, false, true⟩]).1 = [.ok .hidden, .ok .pub, .ok .hidden] := by decide
 
 /-- **Visibility.**  `ob.isVisible` is true exactly when every object on the chain
 `ob, ob.parent, …` has a privacy class and none is HIDDEN ("if a module/package/class is hidden,
-all its members are hidden as well"). -/
+all its members are hidden as well"), and every object on the chain below the root is the entry of
+its parent's `contents` (an older definition superseded by a later one of the same name is not
+visible, nor is anything inside it). -/
 theorem isVisible_meaning (rules : List Rule) : ∀ (chain : List Obj) (c : Cache),
     (isVisible rules c chain).1 = .ok true ↔
-      ∀ r ∈ (run rules c chain).1, ∃ l, r = .ok l ∧ l ≠ .hidden
+      (∀ r ∈ (run rules c chain).1, ∃ l, r = .ok l ∧ l ≠ .hidden) ∧
+        (∀ ob ∈ chain.dropLast, ob.inContents = true)
   | [], c => by simp [isVisible, run]
   | ob :: parents, c => by
     have ih := isVisible_meaning rules parents (privacyClass rules c ob).2
@@ -1030,13 +1033,30 @@ theorem isVisible_meaning (rules : List Rule) : ∀ (chain : List Obj) (c : Cach
       | ok l =>
         by_cases hl : l = .hidden
         · subst hl; simp
-        · simp only [ne_eq, hl, not_false_eq_true, if_true, List.mem_cons, forall_eq_or_imp]
-          rw [ih]
-          constructor
-          · intro h; exact ⟨⟨l, rfl, hl⟩, h⟩
-          · intro h; exact h.2
+        · cases parents with
+          | nil => simp [hl, run]
+          | cons p ps =>
+            simp only [ne_eq, hl, not_false_eq_true, if_true, List.mem_cons, forall_eq_or_imp,
+              List.dropLast_cons₂]
+            by_cases hc : ob.inContents = true
+            · simp only [hc, if_true]
+              rw [ih]
+              constructor
+              · rintro ⟨h1, h2⟩; exact ⟨⟨⟨l, rfl, hl⟩, h1⟩, rfl, h2⟩
+              · rintro ⟨⟨_, h1⟩, _, h2⟩; exact ⟨h1, h2⟩
+            · simp only [hc, if_false, Bool.false_eq_true]
+              constructor
+              · intro h; cases h
+              · rintro ⟨_, h, _⟩; exact absurd h hc
 
-example : (isVisible [⟨.hidden, ['m']⟩] [] [⟨['m', '.', 'a'], ['a'], false, false⟩, ⟨['m'], ['m'], true, false⟩]).1
+example : (isVisible [⟨.hidden, ['m']⟩] [] [⟨['m', '.', 'a'], ['a'], false, false, true⟩, ⟨['m'], ['m'], true, false, true⟩]).1
     = .ok false := by decide
 
+end Privacy
+
+namespace Privacy
+/-- a member of a superseded class `m.C 0` is not visible although nothing is hidden -/
+example : (isVisible [] [] [⟨['m', '.', 'C', ' ', '0', '.', 'f'], ['f'], false, false, true⟩,
+    ⟨['m', '.', 'C', ' ', '0'], ['C', ' ', '0'], false, false, false⟩, ⟨['m'], ['m'], true, false, true⟩]).1
+    = .ok false := by decide
 end Privacy
